@@ -1698,7 +1698,13 @@ def run(tier, rep):
         'registering the same object again leaves one listener; after '
         'remove_handler it is no listener.  remove_handler of an object '
         'that is not registered may raise or not (statement silent) and is '
-        'only generated in part registration-histories',
+        'only generated in part registration-histories; t.clear() there '
+        'removes every listener of t (none of them is told of later '
+        'assignments until it is added again) and - like every other '
+        'operation of that part - must leave every property of both '
+        'transforms reading the value last stored (clause '
+        'stored_value_persists: "stores the value" means until the next '
+        'assignment, not until the listeners change)',
         'listener classes are created at import, bases before subclasses; '
         'process-wide caches inside desper that depend on which listener '
         'was registered first see the enumeration order of the run (every '
